@@ -145,6 +145,18 @@ def main():
         ok = inv in viol
         report.append({"case": f"model_variant_{v}", "spec": "MC_ParBnB", "violated": viol, "expected": inv, "ok": ok})
         print(("ok   " if ok else "FAIL ") + f"model variant {v}", viol)
+    # ---- composed parallel caching search: seeded variants
+    tr = os.path.join(w, "parc.ndjson")
+    run_bin("dd", ["--seed", 1078, "--instances", 120, "--per-instance", 1, "--family", "reconv", "--dd", "lel", "--out", tr])
+    insts = [e["inst"] for e in read_ndjson(tr) if e["ev"] == "reset" and e["inst"]["family"] in ("lifted", "knapsack") and e["inst"]["n"] <= 6][:60]
+    f = os.path.join(w, "parc_insts.json")
+    json.dump(insts, open(f, "w"))
+    for v, inv in (("strict_must_explore", "C09_RouteExists"), ("wait_on_skipped_all", "C04_NoLostWakeup")):
+        r = tlc("MC_ParC", f"SELF_ParC_{v}.cfg", workers=8, timeout=1800, env={"INSTS": f})
+        viol = [x for t in r["violated"] for x in t if x]
+        ok = inv in viol
+        report.append({"case": f"model_variant_parc_{v}", "spec": "MC_ParC", "violated": viol, "expected": inv, "ok": ok})
+        print(("ok   " if ok else "FAIL ") + f"model variant ParC {v}", viol)
     json.dump(report, open(os.path.join(VERIF, "selftest_report.json"), "w"), indent=1)
     bad = [r for r in report if not r["ok"]]
     print(f"{len(report) - len(bad)}/{len(report)} cases behave as expected")
